@@ -42,6 +42,9 @@ enum Tk {
     CallValue,
     Mask,
     Dup1,
+    /// write of a 3-node / 5-node value (caller + 1 [+ 1]) under a literal key
+    WriteSum3(usize),
+    WriteSum5(usize),
 }
 
 fn alphabet() -> Vec<Tk> {
@@ -55,6 +58,7 @@ fn alphabet() -> Vec<Tk> {
         v.push(Tk::SstoreC(k));
     }
     v.extend([Tk::Ji(0), Tk::L, Tk::Stop, Tk::Revert, Tk::Pop, Tk::CallValue, Tk::Mask, Tk::Dup1]);
+    v.extend([Tk::WriteSum3(1), Tk::WriteSum5(1), Tk::WriteSum3(5)]);
     v
 }
 
@@ -85,6 +89,16 @@ fn expand(seq: &[Tk]) -> Option<Vec<u8>> {
             Tk::CallValue => t.push(Tok::Op(op::CALLVALUE)),
             Tk::Mask => t.extend([Tok::Push(U::from_u64(0xff)), Tok::Op(op::AND)]),
             Tk::Dup1 => t.push(Tok::Op(op::DUP1)),
+            Tk::WriteSum3(k) => t.extend([Tok::Op(op::CALLER), Tok::Push(U::ONE), Tok::Op(op::ADD), Tok::Push(ks[*k]), Tok::Op(op::SSTORE)]),
+            Tk::WriteSum5(k) => t.extend([
+                Tok::Op(op::CALLER),
+                Tok::Push(U::ONE),
+                Tok::Op(op::ADD),
+                Tok::Push(U::ONE),
+                Tok::Op(op::ADD),
+                Tok::Push(ks[*k]),
+                Tok::Op(op::SSTORE),
+            ]),
         }
     }
     Some(assemble(&t))
@@ -135,6 +149,16 @@ pub struct Facts {
 }
 
 pub fn check_code(code: &[u8]) -> Result<Option<Facts>, Verdict> {
+    check_code_with(code, None)
+}
+
+/// `size_limit`: value size limit of the VM configuration (None = default).
+pub fn check_code_with(code: &[u8], size_limit: Option<usize>) -> Result<Option<Facts>, Verdict> {
+    check_code_cfg(code, size_limit, false)
+}
+
+/// `tight`: iteration limit 1 and fork limit 1.
+pub fn check_code_cfg(code: &[u8], size_limit: Option<usize>, tight: bool) -> Result<Option<Facts>, Verdict> {
     let accesses = literal_accesses(code);
     if accesses.is_empty() {
         return Ok(None);
@@ -143,7 +167,13 @@ pub fn check_code(code: &[u8]) -> Result<Option<Facts>, Verdict> {
     if x.capped || x.loops {
         return Ok(None);
     }
-    let cfg = sle::vm::Config::default().with_permissive_errors(true);
+    let mut cfg = sle::vm::Config::default().with_permissive_errors(true);
+    if let Some(l) = size_limit {
+        cfg = cfg.with_value_size_limit(l);
+    }
+    if tight {
+        cfg = cfg.with_max_iterations_per_opcode(1).with_max_forks_per_fork_target(1);
+    }
     let vm = match run_vm(code, cfg.clone(), lazy()) {
         VmRun::Ran(o) => o,
         _ => return Ok(None),
@@ -177,7 +207,11 @@ pub fn check_code(code: &[u8]) -> Result<Option<Facts>, Verdict> {
                 "small"
             };
             return Err(Verdict {
-                key: format!("missed:{}:{size_class}", if *is_write { "write" } else { "read" }),
+                key: format!(
+                    "missed:{}:{size_class}{}",
+                    if *is_write { "write" } else { "read" },
+                    size_limit.map(|l| format!(":size-limit-{l}")).unwrap_or_default()
+                ),
                 what: format!(
                     "the {} at offset {off} uses the literal key 0x{} but the layout has no entry there (indices: {:?})",
                     if *is_write { "SSTORE" } else { "SLOAD" },
@@ -239,6 +273,32 @@ impl Check for C06 {
                 Ok(None) => ctx.count("premise_not_met", 1),
                 Err(v) => ctx.violation(v.key, format!("{} [{seq:?} = {}]", v.what, hex(&code)), json!({"bytes": hex(&code)})),
             }
+            // tight exploration limits: an access that was executed must still be witnessed
+            ctx.count("evaluations", 1);
+            ctx.count("tight_limit_runs", 1);
+            if let Err(v) = check_code_cfg(&code, None, true) {
+                ctx.violation(
+                    format!("{}:tight-limits", v.key),
+                    format!("{} [{seq:?} = {} with iteration and fork limit 1]", v.what, hex(&code)),
+                    json!({"bytes": hex(&code), "tight": true}),
+                );
+            }
+            // small value-size limits: culling must never remove the witness of an access
+            if ix.len() <= 3 {
+                for limit in [1usize, 2, 3, 4, 5, 6] {
+                    ctx.count("evaluations", 1);
+                    ctx.count("small_size_limit_runs", 1);
+                    match check_code_with(&code, Some(limit)) {
+                        Ok(Some(_)) => ctx.distinct("nontrivial", crate::util::h64(&(&code, limit))),
+                        Ok(None) => {}
+                        Err(v) => ctx.violation(
+                            v.key,
+                            format!("{} [{seq:?} = {} with value size limit {limit}]", v.what, hex(&code)),
+                            json!({"bytes": hex(&code), "size_limit": limit}),
+                        ),
+                    }
+                }
+            }
             true
         });
     }
@@ -247,7 +307,8 @@ impl Check for C06 {
             "all token sequences <= {} over {} tokens: literal-key read (PUSH k SLOAD POP) and write (PUSH 1 PUSH k SSTORE) for 10 \
              boundary keys (1, 5, 10000, 2^64, 2^64+1, 2^128, 2^255, 2^256-1, the EIP-1967 slot, keccak(\"a\")-1), SLOAD/SSTORE with the \
              operand left on / taken from the stack for two keys, and context tokens (conditional jump to a label, JUMPDEST, STOP, \
-             REVERT, POP, CALLVALUE, a mask, DUP1). Premise from the tool (offset executed in some stored state) and from the reference \
+             REVERT, POP, CALLVALUE, a mask, DUP1), writes of 3- and 5-node values; sequences <= 3 additionally under value size limits \
+             1..6 (culling at the limit must never remove the witness of an access). Premise from the tool (offset executed in some stored state) and from the reference \
              EVM (the access does not fault); when permissive analyze() succeeds every such key that is not keccak(n), n < 10000, must \
              be the index of an entry, compared as a 256-bit word. non-trivial = program with at least one required key; distinct by content",
             max_len(tier),
@@ -267,7 +328,9 @@ impl Check for C06 {
         println!("literal accesses: {:?}", literal_accesses(&code));
         let o = analyze(&code, sle::vm::Config::default().with_permissive_errors(true), &Vec::new(), lazy());
         println!("analysis: {}", o.json());
-        match check_code(&code) {
+        let limit = replay["case"]["size_limit"].as_u64().map(|l| l as usize);
+        let tight = replay["case"]["tight"].as_bool().unwrap_or(false);
+        match check_code_cfg(&code, limit, tight) {
             Ok(_) => false,
             Err(v) => {
                 println!("observed: {}: {}", v.key, v.what);
